@@ -7,7 +7,7 @@
 From Coq Require Import ZArith Bool String Ascii List QArith Qabs Qpower Floats.SpecFloat.
 Require Import Blots.Num Blots.Outcome Blots.DisplayNum.
 Require Import Blots.proofs.DisplayNumGroup Blots.proofs.DisplayNumSpec Blots.proofs.DisplayNumText
-               Blots.proofs.DisplayNumInt Blots.proofs.DisplayNum.
+               Blots.proofs.DisplayNumInt Blots.proofs.DisplayNum Blots.proofs.DisplayNumAcc.
 Import ListNotations.
 Open Scope char_scope.
 Open Scope Z_scope.
@@ -216,9 +216,7 @@ Proof. vm_compute. repeat split. Qed.
 (* ====================================================================================
    ACCURACY to 15 significant digits — partial (see notes/C20.md).
    ==================================================================================== *)
-(* 10^k <= |x| < 10^(k+1) *)
-Definition in_decade (x : num) (k : Z) : Prop :=
-  (Qpower (10 # 1) k <= Qabs (num_to_Q x))%Q /\ (Qabs (num_to_Q x) < Qpower (10 # 1) (k + 1)%Z)%Q.
+(* in_decade x k :  10^k <= |x| < 10^(k+1)   (proofs/DisplayNumAcc.v) *)
 (* f64::log10 is off by less than one: floor(log10 a) is the decimal exponent or one more *)
 Definition log10_sane (log10 : num -> num) : Prop :=
   forall a k, valid_binary prec emax a = true -> in_decade a k ->
@@ -254,6 +252,61 @@ Check C20_accuracy_partial_integers : forall log10 powi fmt_prec fmt_exp14 parse
   exists t, format_display_number log10 powi fmt_prec fmt_exp14 parse_f64 fx x = Ok t /\
             (Qabs (denote t - num_to_Q x) == 0)%Q.
 Print Assumptions C20_accuracy_partial_integers.
+
+(* Proved part of the accuracy clause: the SCIENTIFIC range (|x| < 0.0001 or |x| >= 1e15, i.e.
+   all but 64 of the 2046 binades).  If {:.14e} is x correctly rounded to 15 significant digits
+   (HE), parse::<f64> of the 15-digit mantissa is within 2e-15 (HP) and {:.14} prints the nearest
+   multiple of 10^-14 (HF), then the display is within HALF a unit of the 15th significant digit
+   of x: re-parsing and re-printing the mantissa gives back the same 15 digits. *)
+Theorem C20_accuracy_partial_scientific : forall log10 powi fmt_prec fmt_exp14 parse_f64 fx,
+  (forall x k, is_finite x = true -> in_decade x k ->
+    exists ms es kk, split_once "e" (fmt_exp14 x) = Some (ms, es) /\ mant14_shape ms = true /\
+      parse_i32 es = Some kk /\
+      (Qabs (denote_plain ms * Qpower (10 # 1) kk - num_to_Q x) <= (1 # 2) * Qpower (10 # 1) (k - 14)%Z)%Q) ->
+  (forall s, mant14_shape s = true ->
+    exists m, parse_f64 s = Some m /\ is_finite m = true /\
+      (Qabs (num_to_Q m - denote_plain s) <= 2 # 1000000000000000)%Q) ->
+  (forall m, is_finite m = true ->
+    prec_shape 14 (fmt_prec m 14) = true /\
+    (Qabs (denote_plain (fmt_prec m 14%Z) - num_to_Q m) <= 1 # 200000000000000)%Q) ->
+  forall x k,
+  is_finite x = true -> neqb x nzero = false -> scientific_range (nabs x) = true ->
+  in_decade x k ->
+  exists t, format_display_number log10 powi fmt_prec fmt_exp14 parse_f64 fx x = Ok t /\
+    (Qabs (denote t - num_to_Q x) <= (1 # 2) * Qpower (10 # 1) (k - 14)%Z)%Q /\
+    (Qabs (denote t - num_to_Q x) < Qpower (10 # 1) (k - 14)%Z)%Q.
+Proof. exact display_scientific_accurate. Qed.
+Check C20_accuracy_partial_scientific : forall log10 powi fmt_prec fmt_exp14 parse_f64 fx,
+  (forall x k, is_finite x = true -> in_decade x k ->
+    exists ms es kk, split_once "e" (fmt_exp14 x) = Some (ms, es) /\ mant14_shape ms = true /\
+      parse_i32 es = Some kk /\
+      (Qabs (denote_plain ms * Qpower (10 # 1) kk - num_to_Q x) <= (1 # 2) * Qpower (10 # 1) (k - 14)%Z)%Q) ->
+  (forall s, mant14_shape s = true ->
+    exists m, parse_f64 s = Some m /\ is_finite m = true /\
+      (Qabs (num_to_Q m - denote_plain s) <= 2 # 1000000000000000)%Q) ->
+  (forall m, is_finite m = true ->
+    prec_shape 14 (fmt_prec m 14) = true /\
+    (Qabs (denote_plain (fmt_prec m 14%Z) - num_to_Q m) <= 1 # 200000000000000)%Q) ->
+  forall x k,
+  is_finite x = true -> neqb x nzero = false -> scientific_range (nabs x) = true ->
+  in_decade x k ->
+  exists t, format_display_number log10 powi fmt_prec fmt_exp14 parse_f64 fx x = Ok t /\
+    (Qabs (denote t - num_to_Q x) <= (1 # 2) * Qpower (10 # 1) (k - 14)%Z)%Q /\
+    (Qabs (denote t - num_to_Q x) < Qpower (10 # 1) (k - 14)%Z)%Q.
+Print Assumptions C20_accuracy_partial_scientific.
+(* the three hypotheses hold for the executable library models at a sample point, x = 1.5e-7:
+   {:.14e} gives 1.50000000000000e-7 (error 0 at this point is not required; bound checked) *)
+Example C20_hyp_sci_sample :
+  let x := num_of_bits 0x3e8421f5f40d8376 in
+  split_once "e" (fmt_exp14_exec x) = Some (tx "1.50000000000000", tx "-7") /\
+  mant14_shape (tx "1.50000000000000") = true /\ parse_i32 (tx "-7") = Some (-7) /\
+  Qle_bool (Qabs (denote_plain (tx "1.50000000000000") * Qpower (10 # 1) (-7) - num_to_Q x))
+           ((1 # 2) * Qpower (10 # 1) (-7 - 14)) = true /\
+  (exists m, parse_f64_exec (tx "1.50000000000000") = Some m /\ is_finite m = true /\
+     Qle_bool (Qabs (num_to_Q m - denote_plain (tx "1.50000000000000"))) (2 # 1000000000000000) = true /\
+     prec_shape 14 (fmt_prec_exec m 14) = true /\
+     Qle_bool (Qabs (denote_plain (fmt_prec_exec m 14) - num_to_Q m)) (1 # 200000000000000) = true).
+Proof. vm_compute. repeat split. eexists. repeat split. Qed.
 
 (* REFUTED on the code as it is (fx = false), known finding C20-F1:
    x = 999999999999998.875 (bits 430c6bf52633fff7).  f64::log10 returns 15.0 both on x and on
